@@ -6,14 +6,34 @@ Import ListNotations.
 From NV Require Import lib.Bytes lib.Corr gen.Consts_WriteBatch model.WriteBatch.
 Open Scope N_scope.
 
-(* one offered slot as observed: batch index and length of every iovec, the UDP_SEGMENT size if the slot has
-   control data, the destination id decoded from msg_name (999999 = not recognisable) *)
-Record ientry := IE { ie_idx : list N; ie_lens : list N; ie_seg : option N; ie_dst : N }.
-Record icall := IC { ic_entries : list ientry; ic_sent : Z; ic_errno : N }.
+(* one offered slot as observed: for every iovec the batch index of the caller's buffer it covers exactly (same
+   base pointer and length; 999999 = none), the UDP_SEGMENT size if the slot has control data, the destination id
+   decoded from msg_name (999999 = not recognisable) *)
+Record ientry := IE { ie_idx : list N; ie_seg : option N; ie_dst : N }.
+(* one sendFn call on slots [start, start+n); updates = the slots of that range whose decoded content changed
+   since they were last offered (every slot is decoded at every call) *)
+Record icall := IC { ic_start : N; ic_n : N; ic_updates : list (N * ientry); ic_sent : Z; ic_errno : N }.
+(* the same call with the offered slots spelled out *)
+Record xcall := XC { ic_entries : list ientry; xc_sent : Z; xc_errno : N }.
 
 Inductive case :=
 | CBatch (cap : N) (gso : bool) (maxSegs : N) (pkts : list (N * N * bool)) (script : list (Z * N))
          (calls : list icall) (ret : N) (err : bool) (gso_after : bool) (panicked : bool).
+
+Definition bad_entry : ientry := IE [] None 999999.
+Fixpoint slot_get (slots : list (N * ientry)) (i : N) : ientry :=
+  match slots with
+  | [] => bad_entry
+  | (j, e) :: r => if j =? i then e else slot_get r i
+  end.
+Fixpoint expand (slots : list (N * ientry)) (calls : list icall) : list xcall :=
+  match calls with
+  | [] => []
+  | c :: r =>
+      let slots' := rev_append (ic_updates c) slots in
+      XC (map (fun i => slot_get slots' (ic_start c + N.of_nat i)) (seq 0 (N.to_nat (ic_n c)))) (ic_sent c) (ic_errno c)
+      :: expand slots' r
+  end.
 
 (* the scripted kernel, exactly as the shim's sendFn: item k, count clamped to the entries offered;
    (0, ENOBUFS) once the script is used up *)
@@ -26,22 +46,20 @@ Definition orc_of_script (script : list (Z * N)) : oracle :=
 Definition mk_pkts (l : list (N * N * bool)) : list pkt := map (fun t => let '(a, b, c) := t in mkPkt a b c) l.
 
 (* ---- model output in the shape of the observation -------------------------------------------------- *)
-Definition view_entry (pkts : list pkt) (e : entry) : ientry :=
-  IE (map N.of_nat (indices e)) (map p_len (run_of pkts e))
-     (if (2 <=? e_pkts e)%nat then Some (e_seg e) else None) (e_dst e).
-Definition view_call (pkts : list pkt) (c : call) : icall :=
-  IC (map (view_entry pkts) (c_offered c)) (c_sent c) (c_errno c).
+Definition view_entry (e : entry) : ientry :=
+  IE (map N.of_nat (indices e)) (if (2 <=? e_pkts e)%nat then Some (e_seg e) else None) (e_dst e).
+Definition view_call (c : call) : xcall :=
+  XC (map view_entry (c_offered c)) (c_sent c) (c_errno c).
 
 Definition ientry_eqb (a b : ientry) : bool :=
-  nlist_eqb (ie_idx a) (ie_idx b) && nlist_eqb (ie_lens a) (ie_lens b)
-  && option_eqb N.eqb (ie_seg a) (ie_seg b) && (ie_dst a =? ie_dst b).
-Definition icall_eqb (a b : icall) : bool :=
-  list_eqb ientry_eqb (ic_entries a) (ic_entries b) && (ic_sent a =? ic_sent b)%Z && (ic_errno a =? ic_errno b).
+  nlist_eqb (ie_idx a) (ie_idx b) && option_eqb N.eqb (ie_seg a) (ie_seg b) && (ie_dst a =? ie_dst b).
+Definition xcall_eqb (a b : xcall) : bool :=
+  list_eqb ientry_eqb (ic_entries a) (ic_entries b) && (xc_sent a =? xc_sent b)%Z && (xc_errno a =? xc_errno b).
 
 (* ---- the property, executable, on observed calls ------------------------------------------------------ *)
-Definition acc_entries (calls : list icall) : list ientry :=
-  flat_map (fun c => if (0 <? ic_sent c)%Z then firstn (Z.to_nat (ic_sent c)) (ic_entries c) else []) calls.
-Definition sent_idx (calls : list icall) : list N := flat_map ie_idx (acc_entries calls).
+Definition acc_entries (calls : list xcall) : list ientry :=
+  flat_map (fun c => if (0 <? xc_sent c)%Z then firstn (Z.to_nat (xc_sent c)) (ic_entries c) else []) calls.
+Definition sent_idx (calls : list xcall) : list N := flat_map ie_idx (acc_entries calls).
 
 Fixpoint nodupb (l : list N) : bool :=
   match l with
@@ -69,13 +87,12 @@ Fixpoint all_but_last {A} (f : A -> bool) (l : list A) : bool :=
 
 Definition sumN (l : list N) : N := fold_right N.add 0 l.
 
-(* an offered slot is well formed: it carries the caller's packets (index, length) of one routable destination,
-   which is the slot's address; several packets need a segment size; a segment size needs GSO and the run
-   geometry: all segments equal to it except a shorter, non-empty last, within the segment and byte limits *)
+(* an offered slot is well formed: every iovec is exactly one of the caller's packets, all of one routable
+   destination, which is the slot's address; several packets need a segment size; a segment size needs GSO and the
+   run geometry: all segments equal to it except a shorter, non-empty last, within the segment and byte limits *)
 Definition entry_ok (gso : bool) (maxSegs : N) (pkts : list pkt) (e : ientry) : bool :=
+  let lens := map (fun i => match nth_error pkts (N.to_nat i) with Some p => p_len p | None => 0 end) (ie_idx e) in
   negb (match ie_idx e with [] => true | _ => false end)
-  && list_eqb (option_eqb N.eqb) (map (fun i => option_map p_len (nth_error pkts (N.to_nat i))) (ie_idx e))
-                                 (map Some (ie_lens e))
   && forallb (fun i => match nth_error pkts (N.to_nat i) with
                        | Some p => (p_dst p =? ie_dst e) && p_ok p
                        | None => false
@@ -86,13 +103,13 @@ Definition entry_ok (gso : bool) (maxSegs : N) (pkts : list pkt) (e : ientry) : 
          gso
          && ((length (ie_idx e) <=? 1)%nat || (N.of_nat (length (ie_idx e)) <=? maxSegs))
          && (s <? 65536)
-         && forallb (fun l => 0 <? l) (ie_lens e)
-         && all_but_last (fun l => l =? s) (ie_lens e)
-         && (last (ie_lens e) 0 <=? s)
-         && (sumN (ie_lens e) <=? wb_max_gso_bytes)
+         && forallb (fun l => 0 <? l) lens
+         && all_but_last (fun l => l =? s) lens
+         && (last lens 0 <=? s)
+         && (sumN lens <=? wb_max_gso_bytes)
      end.
 
-Definition spec_ok (gso : bool) (maxSegs : N) (pkts : list pkt) (calls : list icall) (ret : N) : bool :=
+Definition spec_ok (gso : bool) (maxSegs : N) (pkts : list pkt) (calls : list xcall) (ret : N) : bool :=
   nodupb (sent_idx calls)                                         (* handed to the kernel successfully at most once *)
   && (ret =? N.of_nat (length (sent_idx calls)))                  (* the count is what the kernel accepted *)
   && order_ok pkts (sent_idx calls)                               (* per-destination order *)
@@ -108,7 +125,8 @@ Definition check_case (c : case) : list N :=
                     | NoProgress n => (n =? ret) && err
                     | _ => false
                     end in
-      flag 1 (list_eqb icall_eqb (map (view_call pkts) (r_calls r)) calls && out_ok
+      let xcalls := expand [] calls in
+      flag 1 (list_eqb xcall_eqb (map view_call (r_calls r)) xcalls && out_ok
               && Bool.eqb (r_gso r) gso_after && negb panicked)
-      ++ flag 2 (spec_ok gso maxSegs pkts calls ret)
+      ++ flag 2 (spec_ok gso maxSegs pkts xcalls ret)
   end.
